@@ -311,7 +311,7 @@ func init() {
 			return cs
 		},
 		func(e *vh.Env, c c13Hold, o *vh.Out) {
-			o.Need("gauge_checks")
+			o.Need("gauge_checks", "gauge_checks_after_recovery")
 			bes := newBackends(len(c.Holds))
 			defer closeBackends(bes)
 			ghCfg := faultConfig(c.Strategy, bes, featureCfg{})
@@ -323,7 +323,7 @@ func init() {
 			}
 			defer sys.Close()
 			live := sys.LB.VerifBackends()
-			hold := vh.Script{Status: 200, Steps: []vh.Step{{Op: "hold", Key: "g"}, {Op: "write", N: 5}}}
+			hold := vh.Script{Status: 200, Framing: "chunked", Steps: []vh.Step{{Op: "write", N: 5}, {Op: "flush"}, {Op: "hold", Key: "g"}, {Op: "write", N: 5}}} // headers first: backend_read (2 s) only bounds the wait for them
 			var wg sync.WaitGroup
 			for i, n := range c.Holds {
 				if n == 0 {
@@ -359,6 +359,30 @@ func init() {
 						}
 						o.Obs("gauge_checks", 1)
 					}
+				}
+			}
+			// every backend that holds requests is ejected and taken back while they are still in flight:
+			// health transitions do not touch the gauge
+			for i, b := range live {
+				if c.Holds[i] > 0 {
+					sys.LB.MarkBackendUnhealthy(b, time.Second)
+				}
+			}
+			time.Sleep(1500 * time.Millisecond)
+			for _, b := range live {
+				sys.LB.IsBackendHealthy(b) // what a request that considers the backend does
+			}
+			vh.Settle()
+			_, _, _, _, _, gauges = c13Snapshot(sys)
+			for i, b := range bes {
+				want := int64(bes[i].Inflight())
+				for _, src := range []string{"metrics:", "admin:"} {
+					if g, ok := gauges[src+b.Name]; (ok || want > 0) && g != want {
+						o.Viol("C13|gauge-while-held|after-recovery|"+strings.TrimSuffix(src, ":"), fmt.Sprintf("%s holds=%v: %s was ejected and taken back with %d requests in flight, %sactive_connections is %d", c.Strategy, c.Holds, b.Name, want, src, g), gauges)
+					}
+				}
+				if want > 0 {
+					o.Obs("gauge_checks_after_recovery", 1)
 				}
 			}
 			for _, b := range bes {
